@@ -10,13 +10,13 @@
 enum {
 	OP_LOAD, OP_LOADMEM, OP_START, OP_FRAMES, OP_SETPLAYER, OP_INJECT, OP_SETPOS, OP_NEXT, OP_PREV,
 	OP_SEEK, OP_SETROW, OP_MUTE, OP_CHVOL, OP_STOP, OP_RESTART, OP_END, OP_RELEASE, OP_SCAN,
-	OP_TEMPO, OP_PLAYBUF, OP_INSPATH, OP_SMIXPLAY, OP_SETRNG, OP_GETINFO, OP_FMTLIST, OP_TESTMOD, OP_NKINDS
+	OP_TEMPO, OP_PLAYBUF, OP_INSPATH, OP_SMIXPLAY, OP_SETRNG, OP_GETINFO, OP_FMTLIST, OP_TESTMOD, OP_INJECTFX, OP_NKINDS
 };
 
 static const char *const c06_opname[OP_NKINDS] = {
 	"load", "loadmem", "start", "frames", "setplayer", "inject", "setpos", "next", "prev",
 	"seek", "setrow", "mute", "chvol", "stop", "restart", "end", "release", "scan",
-	"tempo", "playbuf", "inspath", "smixplay", "setrng", "getinfo", "fmtlist", "testmod"
+	"tempo", "playbuf", "inspath", "smixplay", "setrng", "getinfo", "fmtlist", "testmod", "injectfx"
 };
 
 struct c06_op {
@@ -96,6 +96,11 @@ static void c06_gen_play_op(struct c06_op *op, int allow_heavy)
 		}
 	}
 	else if (k < 58) { op->kind = OP_INJECT; op->a = vrng_range(0, 3); op->b = vrng_range(1, 84); op->c = vrng_range(1, 4); op->d = vrng_range(0, 65); }
+	else if (k < 60) {
+		static const int fx[][2] = { { 0x0e, 0x00 }, { 0x0e, 0x01 }, { 0x0a, 0x20 }, { 0x0c, 0x20 } };
+		int j = vrng_below(4);
+		op->kind = OP_INJECTFX; op->a = vrng_range(0, 3); op->b = fx[j][0]; op->c = fx[j][1];
+	}
 	else if (k < 63) { op->kind = OP_SETPOS; op->a = vrng_range(0, 12); }
 	else if (k < 66) { op->kind = OP_NEXT; }
 	else if (k < 69) { op->kind = OP_PREV; }
@@ -199,6 +204,13 @@ static void c06_apply(xmp_context c, const struct c06_op *op, struct c06_mods *m
 		if (e.ins > ctx->m.mod.ins)
 			e.ins = ctx->m.mod.ins;
 		if (ctx->state >= XMP_STATE_PLAYING && op->a < ctx->m.mod.chn + ctx->smix.chn && op->a < XMP_MAX_CHANNELS)
+			xmp_inject_event(c, op->a, &e);
+		break; }
+	case OP_INJECTFX: {
+		struct xmp_event e;
+		memset(&e, 0, sizeof(e));
+		e.fxt = op->b; e.fxp = op->c;
+		if (ctx->state >= XMP_STATE_PLAYING && op->a < ctx->m.mod.chn)
 			xmp_inject_event(c, op->a, &e);
 		break; }
 	case OP_SETPOS: c06_obs_int(o, xmp_set_position(c, op->a)); break;
